@@ -79,6 +79,10 @@ def vector_max(*args):
 supported_functions = {"max": vector_max, "min": vector_min, "exp": np.exp, "floor": np.floor, "SRC_POP_AVG": None, "TGT_POP_AVG": None, "SRC_POP_SUM": None, "TGT_POP_SUM": None, "STITCH_AVG": None, "STITCH_SUM": None, "pi": np.pi, "cos": np.cos, "sin": np.sin, "sqrt": np.sqrt, "ln": np.log, "rand": np.random.rand, "randn": np.random.randn, "sdiv": sdiv}
 
 
+# Only these node types may appear in a parameter function (after division has been rewritten to a call of sdiv)
+_allowed_nodes = (ast.Expression, ast.BinOp, ast.UnaryOp, ast.Compare, ast.Call, ast.Name, ast.Constant, ast.Load, ast.Add, ast.Sub, ast.Mult, ast.Pow, ast.UAdd, ast.USub, ast.Eq, ast.NotEq, ast.Lt, ast.LtE, ast.Gt, ast.GtE)
+
+
 class _DivTransformer(ast.NodeTransformer):
     """
     Helper class to use sdiv everywhere
@@ -149,10 +153,13 @@ def parse_function(fcn_str: str) -> tuple:
     fcn_ast = ast.fix_missing_locations(fcn_ast)
     dep_list = []
     for node in ast.walk(fcn_ast):
-        if isinstance(node, ast.Name) and node.id not in supported_functions:
+        assert isinstance(node, _allowed_nodes), f"Only numbers, names, arithmetic, comparisons and calls to supported functions are allowed ({type(node).__name__} in {fcn_str} is not supported)"
+        if isinstance(node, ast.Constant):
+            assert type(node.value) in (int, float), f"Only numeric constants are allowed ({node.value!r} in {fcn_str} is not supported)"
+        elif isinstance(node, ast.Name) and node.id not in supported_functions:
             dep_list.append(node.id)
-        elif isinstance(node, ast.Call) and hasattr(node, "func") and hasattr(node.func, "id"):
-            assert node.func.id in supported_functions, f"Only calls to supported functions are allowed ({node.func.id} in {fcn_str} is not supported)"
+        elif isinstance(node, ast.Call):
+            assert isinstance(node.func, ast.Name) and node.func.id in supported_functions, f"Only calls to supported functions are allowed ({ast.dump(node.func)} in {fcn_str} is not supported)"
     compiled_code = compile(fcn_ast, filename="<ast>", mode="eval")
 
     def fcn(**deps):
